@@ -15,6 +15,7 @@ import (
 
 	"github.com/meshplus/bitxhub-model/pb"
 	"github.com/meshplus/bitxhub/verif/harness"
+	"github.com/meshplus/bitxhub/verif/model"
 	"github.com/meshplus/bitxhub/verif/vlog"
 )
 
@@ -330,16 +331,19 @@ func crash11Workload(args []string) int {
 			// timeout list of that height is emptied, not removed), and the crash block's request due at the same height
 			emptied := h == gen.R.Height()+2
 			for gen.R.Height() < h+4 || gen.R.Height() < 27 {
+				// (a pair of services the generator's own traffic does not use, so that nothing else touches that list)
+				eFrom, eTo := harness.FullID(harness.ChainB, "s2"), harness.FullID(harness.ChainC, "s2")
+				var scripted []pb.Transaction
 				if emptied && gen.R.Height()+2 == h {
-					g.forceReq, g.forceTimeout = true, 7
+					scripted = append(scripted, g.ibtp(model.KReq, eFrom, eTo, 1, 7, nil))
 				}
 				if emptied && gen.R.Height()+1 == h {
-					g.forceRcp = true
+					scripted = append(scripted, g.ibtp(model.KRcpSuccess, eFrom, eTo, 1, 0, nil))
 				}
 				if gen.R.Height() == h {
 					g.forceReq = true
 					if emptied {
-						g.forceTimeout = 5
+						scripted = append(scripted, g.ibtp(model.KReq, eFrom, eTo, 2, 5, nil))
 						// what the state store holds under the timeout list of height h+6 right before the crash block
 						d := gen.R.DumpState()
 						for k, v := range d {
@@ -353,7 +357,7 @@ func crash11Workload(args []string) int {
 						}
 					}
 				}
-				txs := g.genBlock(gen.R.Height() + 1)
+				txs := append(scripted, g.genBlock(gen.R.Height()+1)...)
 				// a storage key that is readable and at the same time a valid hex string (the journal hex-encodes
 				// keys): set before the crash block, overwritten by it
 				if h >= 20 && gen.R.Height()+1 == h {
